@@ -498,6 +498,16 @@ let rec nth n0 l default =
             | [] -> default
             | _ :: t -> nth m t default)
 
+(** val nth_error : 'a1 list -> nat -> 'a1 option **)
+
+let rec nth_error l = function
+| O -> (match l with
+        | [] -> None
+        | x :: _ -> Some x)
+| S n1 -> (match l with
+           | [] -> None
+           | _ :: l0 -> nth_error l0 n1)
+
 (** val rev : 'a1 list -> 'a1 list **)
 
 let rec rev = function
@@ -1480,9 +1490,9 @@ let token_encode n0 =
 
 let token_decode s =
   match b64_decode s with
-  | Some bytes ->
-    if Nat.eqb (length bytes) (S (S (S (S (S (S (S (S O))))))))
-    then Some (le_value bytes)
+  | Some bytes0 ->
+    if Nat.eqb (length bytes0) (S (S (S (S (S (S (S (S O))))))))
+    then Some (le_value bytes0)
     else None
   | None -> None
 
@@ -1680,16 +1690,16 @@ let tr_modify mods t =
     n -> ekey list -> (n * lease) list -> ((lease list * ekey
     list) * (n * lease) list) option **)
 
-let rec take_expired now exp msgs =
+let rec take_expired now exp msgs0 =
   match exp with
-  | [] -> Some (([], []), msgs)
+  | [] -> Some (([], []), msgs0)
   | e :: exp' ->
     let (d, a) = e in
     if N.ltb now d
-    then Some (([], exp), msgs)
-    else (match alookup N.eqb a msgs with
+    then Some (([], exp), msgs0)
+    else (match alookup N.eqb a msgs0 with
           | Some l ->
-            (match take_expired now exp' (aremove N.eqb a msgs) with
+            (match take_expired now exp' (aremove N.eqb a msgs0) with
              | Some p ->
                let (p0, m) = p in let (r, e0) = p0 in Some (((l :: r), e0), m)
              | None -> None)
@@ -4458,3 +4468,395 @@ let pure_file text =
   join_nl
     (map pure_line
       (filter (fun l -> negb (is_nil l)) (map tokens (split_on nl text))))
+
+type cfg = { max_m : n; max_b : n }
+
+type wpc =
+| W0
+| W1 of n
+| WL
+| WS of n
+| WM of n * n
+| WP of n * n * n option
+| WParked of n * n * n option
+| WDone of n * n
+
+type mkind =
+| Inc
+| Dec
+
+type mpc =
+| M0
+| M1
+| M2
+| MDone
+
+type thread =
+| TW of wpc
+| TM of mkind * n * n * mpc
+
+type state = { msgs : n; bytes : n; calls : n; threads : thread list }
+
+(** val upd : nat -> 'a1 -> 'a1 list -> 'a1 list **)
+
+let rec upd i x = function
+| [] -> []
+| y :: r -> (match i with
+             | O -> x :: r
+             | S j -> y :: (upd j x r))
+
+(** val apply : mkind -> n -> n -> n **)
+
+let apply k v d =
+  match k with
+  | Inc ->
+    N.modulo (N.add v d)
+      (N.pow (Npos (XO XH)) (Npos (XO (XO (XO (XO (XO (XO XH))))))))
+  | Dec ->
+    N.modulo
+      (N.add v
+        (N.sub (N.pow (Npos (XO XH)) (Npos (XO (XO (XO (XO (XO (XO XH))))))))
+          (N.modulo d
+            (N.pow (Npos (XO XH)) (Npos (XO (XO (XO (XO (XO (XO XH)))))))))))
+      (N.pow (Npos (XO XH)) (Npos (XO (XO (XO (XO (XO (XO XH))))))))
+
+(** val wstep : cfg -> n -> n -> n -> wpc -> wpc option **)
+
+let wstep c ms bs ca = function
+| W0 -> Some (if N.ltb ms c.max_m then W1 ms else WL)
+| W1 m -> Some (if N.ltb bs c.max_b then WDone (m, bs) else WL)
+| WL -> Some (WS ca)
+| WS s -> Some (if N.ltb ms c.max_m then WM (s, ms) else WP (s, ms, None))
+| WM (s, m) ->
+  Some (if N.ltb bs c.max_b then WDone (m, bs) else WP (s, m, (Some bs)))
+| WP (s, m, ob) -> Some (if N.eqb ca s then WParked (s, m, ob) else WL)
+| _ -> None
+
+(** val wake : thread -> thread **)
+
+let wake t = match t with
+| TW pc -> (match pc with
+            | WParked (_, _, _) -> TW WL
+            | _ -> t)
+| TM (_, _, _, _) -> t
+
+(** val step : cfg -> state -> nat -> state option **)
+
+let step c st i =
+  match nth_error st.threads i with
+  | Some t ->
+    (match t with
+     | TW pc ->
+       (match wstep c st.msgs st.bytes st.calls pc with
+        | Some pc' ->
+          Some { msgs = st.msgs; bytes = st.bytes; calls = st.calls;
+            threads = (upd i (TW pc') st.threads) }
+        | None -> None)
+     | TM (k, db, dm, pc) ->
+       (match pc with
+        | M0 ->
+          Some { msgs = st.msgs; bytes = (apply k st.bytes db); calls =
+            st.calls; threads = (upd i (TM (k, db, dm, M1)) st.threads) }
+        | M1 ->
+          Some { msgs = (apply k st.msgs dm); bytes = st.bytes; calls =
+            st.calls; threads = (upd i (TM (k, db, dm, M2)) st.threads) }
+        | M2 ->
+          Some { msgs = st.msgs; bytes = st.bytes; calls =
+            (N.add st.calls (Npos XH)); threads =
+            (upd i (TM (k, db, dm, MDone)) (map wake st.threads)) }
+        | MDone -> None))
+  | None -> None
+
+(** val fc_wname : wpc -> str **)
+
+let fc_wname = function
+| W0 ->
+  kw (String ((Ascii (false, false, true, true, false, true, true, false)),
+    (String ((Ascii (true, true, true, true, false, true, true, false)),
+    (String ((Ascii (true, false, false, false, false, true, true, false)),
+    (String ((Ascii (false, false, true, false, false, true, true, false)),
+    (String ((Ascii (true, true, true, true, true, false, true, false)),
+    (String ((Ascii (true, false, true, true, false, true, true, false)),
+    (String ((Ascii (true, true, false, false, true, true, true, false)),
+    (String ((Ascii (true, true, true, false, false, true, true, false)),
+    (String ((Ascii (true, true, false, false, true, true, true, false)),
+    EmptyString))))))))))))))))))
+| WL ->
+  kw (String ((Ascii (false, true, true, true, false, true, true, false)),
+    (String ((Ascii (true, true, true, true, false, true, true, false)),
+    (String ((Ascii (false, false, true, false, true, true, true, false)),
+    (String ((Ascii (true, false, false, true, false, true, true, false)),
+    (String ((Ascii (false, true, true, false, false, true, true, false)),
+    (String ((Ascii (true, false, false, true, false, true, true, false)),
+    (String ((Ascii (true, false, true, false, false, true, true, false)),
+    (String ((Ascii (false, false, true, false, false, true, true, false)),
+    EmptyString))))))))))))))))
+| WS _ ->
+  kw (String ((Ascii (false, false, true, true, false, true, true, false)),
+    (String ((Ascii (true, true, true, true, false, true, true, false)),
+    (String ((Ascii (true, false, false, false, false, true, true, false)),
+    (String ((Ascii (false, false, true, false, false, true, true, false)),
+    (String ((Ascii (true, true, true, true, true, false, true, false)),
+    (String ((Ascii (true, false, true, true, false, true, true, false)),
+    (String ((Ascii (true, true, false, false, true, true, true, false)),
+    (String ((Ascii (true, true, true, false, false, true, true, false)),
+    (String ((Ascii (true, true, false, false, true, true, true, false)),
+    EmptyString))))))))))))))))))
+| WP (_, _, _) ->
+  kw (String ((Ascii (false, false, false, false, true, true, true, false)),
+    (String ((Ascii (true, true, true, true, false, true, true, false)),
+    (String ((Ascii (false, false, true, true, false, true, true, false)),
+    (String ((Ascii (false, false, true, true, false, true, true, false)),
+    EmptyString))))))))
+| WParked (_, _, _) ->
+  kw (String ((Ascii (false, false, false, false, true, true, true, false)),
+    (String ((Ascii (true, false, false, false, false, true, true, false)),
+    (String ((Ascii (false, true, false, false, true, true, true, false)),
+    (String ((Ascii (true, true, false, true, false, true, true, false)),
+    (String ((Ascii (true, false, true, false, false, true, true, false)),
+    (String ((Ascii (false, false, true, false, false, true, true, false)),
+    EmptyString))))))))))))
+| WDone (_, _) ->
+  kw (String ((Ascii (false, false, true, false, false, true, true, false)),
+    (String ((Ascii (true, true, true, true, false, true, true, false)),
+    (String ((Ascii (false, true, true, true, false, true, true, false)),
+    (String ((Ascii (true, false, true, false, false, true, true, false)),
+    EmptyString))))))))
+| _ ->
+  kw (String ((Ascii (false, false, true, true, false, true, true, false)),
+    (String ((Ascii (true, true, true, true, false, true, true, false)),
+    (String ((Ascii (true, false, false, false, false, true, true, false)),
+    (String ((Ascii (false, false, true, false, false, true, true, false)),
+    (String ((Ascii (true, true, true, true, true, false, true, false)),
+    (String ((Ascii (false, true, false, false, false, true, true, false)),
+    (String ((Ascii (true, false, false, true, true, true, true, false)),
+    (String ((Ascii (false, false, true, false, true, true, true, false)),
+    (String ((Ascii (true, false, true, false, false, true, true, false)),
+    (String ((Ascii (true, true, false, false, true, true, true, false)),
+    EmptyString))))))))))))))))))))
+
+(** val fc_mname : mpc -> str **)
+
+let fc_mname = function
+| M0 ->
+  kw (String ((Ascii (false, true, true, false, false, true, true, false)),
+    (String ((Ascii (true, false, true, false, false, true, true, false)),
+    (String ((Ascii (false, false, true, false, true, true, true, false)),
+    (String ((Ascii (true, true, false, false, false, true, true, false)),
+    (String ((Ascii (false, false, false, true, false, true, true, false)),
+    (String ((Ascii (true, true, true, true, true, false, true, false)),
+    (String ((Ascii (false, true, false, false, false, true, true, false)),
+    (String ((Ascii (true, false, false, true, true, true, true, false)),
+    (String ((Ascii (false, false, true, false, true, true, true, false)),
+    (String ((Ascii (true, false, true, false, false, true, true, false)),
+    (String ((Ascii (true, true, false, false, true, true, true, false)),
+    EmptyString))))))))))))))))))))))
+| M1 ->
+  kw (String ((Ascii (false, true, true, false, false, true, true, false)),
+    (String ((Ascii (true, false, true, false, false, true, true, false)),
+    (String ((Ascii (false, false, true, false, true, true, true, false)),
+    (String ((Ascii (true, true, false, false, false, true, true, false)),
+    (String ((Ascii (false, false, false, true, false, true, true, false)),
+    (String ((Ascii (true, true, true, true, true, false, true, false)),
+    (String ((Ascii (true, false, true, true, false, true, true, false)),
+    (String ((Ascii (true, true, false, false, true, true, true, false)),
+    (String ((Ascii (true, true, true, false, false, true, true, false)),
+    (String ((Ascii (true, true, false, false, true, true, true, false)),
+    EmptyString))))))))))))))))))))
+| M2 ->
+  kw (String ((Ascii (false, true, true, true, false, true, true, false)),
+    (String ((Ascii (true, true, true, true, false, true, true, false)),
+    (String ((Ascii (false, false, true, false, true, true, true, false)),
+    (String ((Ascii (true, false, false, true, false, true, true, false)),
+    (String ((Ascii (false, true, true, false, false, true, true, false)),
+    (String ((Ascii (true, false, false, true, true, true, true, false)),
+    EmptyString))))))))))))
+| MDone ->
+  kw (String ((Ascii (false, false, true, false, false, true, true, false)),
+    (String ((Ascii (true, true, true, true, false, true, true, false)),
+    (String ((Ascii (false, true, true, true, false, true, true, false)),
+    (String ((Ascii (true, false, true, false, false, true, true, false)),
+    EmptyString))))))))
+
+(** val fc_tname : thread -> str **)
+
+let fc_tname = function
+| TW pc -> fc_wname pc
+| TM (_, _, _, pc) -> fc_mname pc
+
+(** val fc_dash : str **)
+
+let fc_dash =
+  (Npos (XI (XO (XI (XI (XO XH)))))) :: []
+
+(** val fc_bad : str list **)
+
+let fc_bad =
+  ((Npos (XI (XI (XI (XI (XI XH)))))) :: []) :: []
+
+(** val fc_step : cfg -> state -> n -> state option **)
+
+let fc_step c st i =
+  if N.ltb i (len_N st.threads) then step c st (N.to_nat i) else None
+
+(** val fc_sched : cfg -> state -> n list -> str list * state **)
+
+let rec fc_sched c st = function
+| [] -> ([], st)
+| i :: r ->
+  (match fc_step c st i with
+   | Some st' ->
+     let nm =
+       match nth_error st'.threads (N.to_nat i) with
+       | Some t -> fc_tname t
+       | None -> fc_dash
+     in
+     let (ls, fin) = fc_sched c st' r in
+     (((join_sp ((r_num i) :: (nm :: []))) :: ls), fin)
+   | None ->
+     let (ls, fin) = fc_sched c st r in
+     (((join_sp ((r_num i) :: (fc_dash :: []))) :: ls), fin))
+
+(** val fc_final : state -> str **)
+
+let fc_final st =
+  join_sp
+    (app
+      ((kw (String ((Ascii (false, true, true, false, false, false, true,
+         false)), (String ((Ascii (true, false, false, true, false, false,
+         true, false)), (String ((Ascii (false, true, true, true, false,
+         false, true, false)), (String ((Ascii (true, false, false, false,
+         false, false, true, false)), (String ((Ascii (false, false, true,
+         true, false, false, true, false)), EmptyString))))))))))) :: (
+      (r_num st.msgs) :: ((r_num st.bytes) :: []))) (map fc_tname st.threads))
+
+(** val fc_p_thread : str list -> thread option **)
+
+let fc_p_thread = function
+| [] -> None
+| t :: l ->
+  (match l with
+   | [] -> None
+   | k :: l0 ->
+     (match l0 with
+      | [] ->
+        if (&&)
+             (is_kw (String ((Ascii (false, false, true, false, true, false,
+               true, false)), EmptyString)) t)
+             (is_kw (String ((Ascii (true, true, true, false, true, false,
+               true, false)), EmptyString)) k)
+        then Some (TW W0)
+        else None
+      | a :: l1 ->
+        (match l1 with
+         | [] -> None
+         | b :: l2 ->
+           (match l2 with
+            | [] ->
+              if is_kw (String ((Ascii (false, false, true, false, true,
+                   false, true, false)), EmptyString)) t
+              then bind (p_nat a) (fun db ->
+                     bind (p_nat b) (fun dm ->
+                       if is_kw (String ((Ascii (true, false, false, true,
+                            false, false, true, false)), EmptyString)) k
+                       then Some (TM (Inc, db, dm, M0))
+                       else if is_kw (String ((Ascii (false, false, true,
+                                 false, false, false, true, false)),
+                                 EmptyString)) k
+                            then Some (TM (Dec, db, dm, M0))
+                            else None))
+              else None
+            | _ :: _ -> None))))
+
+(** val fc_p_nats : str list -> n list option **)
+
+let rec fc_p_nats = function
+| [] -> Some []
+| t :: r ->
+  bind (p_nat t) (fun x -> bind (fc_p_nats r) (fun l -> Some (x :: l)))
+
+(** val fc_p_body :
+    str list list -> thread list -> (thread list * n list) option **)
+
+let rec fc_p_body lines acc =
+  match lines with
+  | [] -> None
+  | l :: rest ->
+    (match rest with
+     | [] ->
+       (match l with
+        | [] -> None
+        | s :: r ->
+          if is_kw (String ((Ascii (true, true, false, false, true, false,
+               true, false)), (String ((Ascii (true, true, false, false,
+               false, false, true, false)), (String ((Ascii (false, false,
+               false, true, false, false, true, false)), (String ((Ascii
+               (true, false, true, false, false, false, true, false)),
+               (String ((Ascii (false, false, true, false, false, false,
+               true, false)), EmptyString)))))))))) s
+          then bind (fc_p_nats r) (fun sc -> Some ((rev acc), sc))
+          else None)
+     | _ :: _ -> bind (fc_p_thread l) (fun t -> fc_p_body rest (t :: acc)))
+
+(** val fc_p_cfg : str list -> ((cfg * n) * n) option **)
+
+let fc_p_cfg = function
+| [] -> None
+| c :: l ->
+  (match l with
+   | [] -> None
+   | a :: l0 ->
+     (match l0 with
+      | [] -> None
+      | b :: l1 ->
+        (match l1 with
+         | [] -> None
+         | m :: l2 ->
+           (match l2 with
+            | [] -> None
+            | y :: l3 ->
+              (match l3 with
+               | [] ->
+                 if is_kw (String ((Ascii (true, true, false, false, false,
+                      false, true, false)), (String ((Ascii (false, true,
+                      true, false, false, false, true, false)), (String
+                      ((Ascii (true, true, true, false, false, false, true,
+                      false)), EmptyString)))))) c
+                 then bind (p_nat a) (fun mm ->
+                        bind (p_nat b) (fun mb ->
+                          bind (p_nat m) (fun im ->
+                            bind (p_nat y) (fun ib -> Some (({ max_m = mm;
+                              max_b = mb }, im), ib)))))
+                 else None
+               | _ :: _ -> None)))))
+
+(** val fc_run_case : str list list -> str list **)
+
+let fc_run_case = function
+| [] -> fc_bad
+| cl :: rest ->
+  (match fc_p_cfg cl with
+   | Some p ->
+     let (p0, ib) = p in
+     let (c, im) = p0 in
+     (match fc_p_body rest [] with
+      | Some p1 ->
+        let (ths, sc) = p1 in
+        let st0 = { msgs = im; bytes = ib; calls = N0; threads = ths } in
+        let (ls, fin) = fc_sched c st0 sc in app ls ((fc_final fin) :: [])
+      | None -> fc_bad)
+   | None -> fc_bad)
+
+(** val fc_case : (str * str list) -> str list **)
+
+let fc_case c =
+  (fst c) :: (app (fc_run_case (map tokens (snd c)))
+               ((kw (String ((Ascii (true, false, true, false, false, false,
+                  true, false)), (String ((Ascii (false, true, true, true,
+                  false, false, true, false)), (String ((Ascii (false, false,
+                  true, false, false, false, true, false)), EmptyString))))))) :: []))
+
+(** val fc_file : str -> str **)
+
+let fc_file text =
+  join_nl (flat_map fc_case (cases_of (split_on nl text) None))
